@@ -182,8 +182,8 @@ func checkInt(r *core.Result, s string) {
 	}
 	digits := len(strings.TrimLeft(strings.TrimPrefix(s, "-"), "0"))
 	switch {
-	case ok && digits > 18:
-		return // outside judged domain
+	case ok && digits > 18 && err != nil:
+		return // possibly not representable: refusing it is right; accepting it with another value (below) is not
 	case ok && err != nil:
 		r.Violate("C14/int/rejects-grammar", fmt.Sprintf("FIXInt.Read(%q) = error %v, but the text is in the int grammar", s, err), tcase{"int", s, "accept " + want.String(), "error"})
 	case !ok && err == nil:
@@ -264,6 +264,19 @@ func checkTS(r *core.Result, s string) {
 		// canonical text round trip
 		if w := string(f.Write()); w != s {
 			r.Violate("C14/timestamp/text-roundtrip", fmt.Sprintf("Write(Read(%q)) = %q", s, w), tcase{"timestamp", s, s, w})
+			return
+		}
+		// the same when the value read into already held a timestamp of another precision
+		for _, p0 := range []quickfix.TimestampPrecision{quickfix.Seconds, quickfix.Millis, quickfix.Micros, quickfix.Nanos} {
+			g := quickfix.FIXUTCTimestamp{Time: time.Unix(1234567890, 123456789).UTC(), Precision: p0}
+			if err := g.Read([]byte(s)); err != nil {
+				r.Violate("C14/timestamp/rejects-grammar/reused-value", fmt.Sprintf("FIXUTCTimestamp.Read(%q) into a value of precision %v = error %v", s, p0, err), tcase{"timestamp", s, "accept", "error"})
+				return
+			}
+			if w := string(g.Write()); w != s || !g.Time.Equal(f.Time) {
+				r.Violate("C14/timestamp/text-roundtrip/reused-value", fmt.Sprintf("Read(%q) into a value that held a timestamp of precision %v, then Write = %q (time %v)", s, p0, w, g.Time), tcase{"timestamp", s, s, w})
+				return
+			}
 		}
 	}
 }
@@ -373,6 +386,19 @@ func randomCase(c *core.Ctx, r *core.Result, rng *rand.Rand, sample bool) {
 		var f quickfix.FIXInt
 		if err := f.Read([]byte(t)); err != nil || int64(f) != v || t != strconv.FormatInt(v, 10) {
 			r.Violate("C14/int/value-roundtrip", fmt.Sprintf("Read(Write(%d)) via %q = %d, %v", v, t, int64(f), err), tcase{"int", fmt.Sprint(v), fmt.Sprint(v), fmt.Sprint(int64(f), err)})
+		}
+		// texts of the grammar at and beyond the limits of the machine integer: the exact value or an error, never another value
+		if rng.Intn(8) == 0 {
+			base := core.Pick(rng, "9223372036854775807", "9223372036854775808", "9223372036854775809", "18446744073709551615", "18446744073709551616", "18446744073709551617", "10000000000000000000", "99999999999999999999", "36893488147419103233", "340282366920938463463374607431768211457")
+			var b big.Int
+			b.SetString(base, 10)
+			b.Add(&b, big.NewInt(int64(rng.Intn(2000))))
+			t := b.String()
+			if rng.Intn(2) == 0 {
+				t = "-" + t
+			}
+			checkInt(r, t)
+			r.Nontrivial("ib:" + t)
 		}
 		// leading zeros
 		z := strings.Repeat("0", rng.Intn(4)) + strconv.FormatInt(abs(v), 10)
